@@ -152,7 +152,14 @@ func genC20(r *Run) {
 		if i%2 == 0 {
 			p, _ = dhcpv4.FromBytes(w)
 		} else {
-			p = pktOfArgs(r.randPkt(r.randOpts(6, 40)))
+			a := r.randPkt(r.randOpts(6, 40))
+			if r.Rng.Intn(3) == 0 {
+				a[10] = r.Bytes(r.Pick(17, 20, 20, 32, 255)) // a constructed packet may hold a hardware address longer than the 16-octet field
+			}
+			if r.Rng.Intn(3) == 0 {
+				a[11], a[12] = r.noNul(r.Pick(64, 70, 200)), r.noNul(r.Pick(128, 130, 300)) // names longer than their fields
+			}
+			p = pktOfArgs(a)
 			p.UpdateOption(dhcpv4.OptParameterRequestList(dhcpv4.OptionRouter, dhcpv4.OptionSubnetMask, dhcpv4.OptionDomainName, dhcpv4.OptionBootfileName))
 		}
 		if p == nil {
